@@ -5,7 +5,8 @@ use crate::spec::*;
 use crate::src::Src;
 use owlchess::{movegen, Color, Coord};
 
-pub fn attackers_exact<S: Src, const SIDE: u8>(s: &mut S) {
+/// FULL x 64 squares, attackers of colour BY
+pub fn attackers_exact<S: Src, const SIDE: u8, const BY: u8>(s: &mut S) {
     crate::stubs::draw_hash_pool(s);
     let b = match any_board(s, SIDE) {
         Some(b) => b,
@@ -13,23 +14,38 @@ pub fn attackers_exact<S: Src, const SIDE: u8>(s: &mut S) {
     };
     let p = pos_of(b.raw());
     let sq = s.below(64);
-    let by = s.below(2);
-    let col = if by == 1 { Color::Black } else { Color::White };
+    let col = if BY == 1 { Color::Black } else { Color::White };
     let c = Coord::from_index(sq as usize);
     let got = movegen::cell_attackers(&b, c, col).as_raw();
-    let want = attackers_ref(&p.cells, sq, by);
-    vnote!("fen={} sq={} by={} got={:#x} want={:#x}", b.as_fen(), sq, by, got, want);
+    let want = attackers_ref(&p.cells, sq, BY);
+    vnote!("fen={} sq={} by={} got={:#x} want={:#x}", b.as_fen(), sq, BY, got, want);
     vassert!("attackers query = men that could capture there", got == want);
     vassert!("is-attacked query = (attackers non-empty)", movegen::is_cell_attacked(&b, c, col) == (want != 0));
-    // check queries
+    vcover!("two or more attackers", want.count_ones() >= 2);
+    vcover!("no attacker", want == 0);
+    vcover!("a queen attacking along a line from a distance", want != 0 && {
+        let a = want.trailing_zeros() as u8;
+        piece_of(p.cells[a as usize]) == Q && ((a & 7) == (sq & 7) || (a >> 3) == (sq >> 3)) && (a as i8 - sq as i8).abs() > 1
+    });
+    vcover!("a pawn attacker on the seventh rank", want != 0 && piece_of(p.cells[want.trailing_zeros() as usize]) == P && (want.trailing_zeros() >> 3) == if BY == 0 { 1 } else { 6 });
+}
+
+/// FULL: check queries against the same definition applied to the kings' squares
+pub fn check_queries_exact<S: Src, const SIDE: u8>(s: &mut S) {
+    crate::stubs::draw_hash_pool(s);
+    let b = match any_board(s, SIDE) {
+        Some(b) => b,
+        None => return,
+    };
+    let p = pos_of(b.raw());
     let k = find_king(&p.cells, p.side);
     let chk = attackers_ref(&p.cells, k, 1 - p.side);
+    vnote!("fen={} is_check={} checkers={:#x} rules: {:#x}", b.as_fen(), b.is_check(), b.checkers().as_raw(), chk);
     vassert!("is_check = own king attacked", b.is_check() == (chk != 0));
     vassert!("checkers = attackers of own king", b.checkers().as_raw() == chk);
     let ok = find_king(&p.cells, 1 - p.side);
-    vassert!("opponent-king-attacked query exact", b.is_opponent_king_attacked() == (attackers_ref(&p.cells, ok, p.side) != 0));
-    vcover!("two or more attackers", want.count_ones() >= 2);
-    vcover!("no attacker", want == 0);
+    vassert!("opponent-king-attacked query exact (never on a valid position)", b.is_opponent_king_attacked() == (attackers_ref(&p.cells, ok, p.side) != 0));
     vcover!("double check", chk.count_ones() >= 2);
-    vcover!("slider attacker through empty squares", want != 0 && { let a = want.trailing_zeros() as u8; piece_of(p.cells[a as usize]) == Q && (a as i8 - sq as i8).abs() > 9 });
+    vcover!("not in check", chk == 0);
+    vcover!("check by a queen along a line", chk != 0 && piece_of(p.cells[chk.trailing_zeros() as usize]) == Q && ((chk.trailing_zeros() as u8 & 7) == (k & 7) || (chk.trailing_zeros() as u8 >> 3) == (k >> 3)));
 }
